@@ -86,6 +86,60 @@ def systemSpec (ft : FlowType) (v : Rat) (n : Nat) : Rat :=
   | .system => v
   | .other => 0
 
+/-! ### `GHEManager.set_design` call histories (manager.py)
+
+  What `set_design(flow_rate, flow_type_str, throw)` does, in order (`Gen.setDesignSkeleton` is the
+  skeleton regenerated from the source): upper-case the string; not a `FlowConfigType` name →
+  `ValueError` if `throw` else return 1, nothing stored; `self._geometric_constraints.type` (an
+  `AttributeError` while no geometry has been set — `_geometric_constraints` is `None`); otherwise
+  `self._design = Design<Method>(flow_rate, …, self._geometric_constraints, …, flow_type=flow_type)` — a
+  NEW design object on every call, whatever was there before — and return 0.
+  `set_geometry_constraints_*` replaces `_geometric_constraints` and leaves `_design` alone. -/
+
+/-- The part of a `GHEManager` the flow specification lives in: `geom` = index of the design method of
+    the current geometric constraints (`none`: not set), `design` = (V_flow, flow_type, method) of `_design`. -/
+structure Manager where
+  geom : Option Nat
+  design : Option (Rat × FlowType × Nat)
+  deriving Repr, DecidableEq
+
+inductive CallResult where
+  | ret (code : Nat) | raised (e : PyErr)
+  deriving Repr, DecidableEq
+
+/-- Number of design methods `set_design` knows (`DesignGeomType`). -/
+def nMethods : Nat := 6
+
+/-- One `set_design` call; `ft` is the enum member named by the upper-cased string (`.other`: none).
+    `AttributeError` is `PyErr.other`. -/
+def setDesign (m : Manager) (v : Rat) (ft : FlowType) (throw : Bool) : Manager × CallResult :=
+  if ft = .other then (m, if throw then .raised .valueError else .ret 1)
+  else match m.geom with
+    | none => (m, .raised .other)
+    | some k =>
+      if k < nMethods then ({ m with design := some (v, ft, k) }, .ret 0)
+      else (m, if throw then .raised .valueError else .ret 1)
+
+def setGeometry (m : Manager) (k : Nat) : Manager := { m with geom := some k }
+
+/-- A call of the history: `set_design(v, ft, throw)`. -/
+abbrev Call := Rat × FlowType × Bool
+
+def stepCall (m : Manager) (c : Call) : Manager := (setDesign m c.1 c.2.1 c.2.2).1
+
+/-- The manager after a history of `set_design` calls (exceptions caught by the caller). -/
+def afterCalls (m : Manager) (calls : List Call) : Manager := calls.foldl stepCall m
+
+/-- A call that names a `FlowConfigType` member (any other string is refused and stores nothing). -/
+def validCall (c : Call) : Bool := decide (c.2.1 ≠ FlowType.other)
+
+/-- The flow state `find_design` gives a candidate field: the search is constructed from
+    `_design.V_flow`, `_design.flow_type` (`Gen.designFlowWiring`); no design → `find_design` refuses. -/
+def designFlow (m : Manager) (c : Copy) (coordinates : List (Rat × Rat)) (rho : Rat) : Py GheFlow :=
+  match m.design with
+  | some (v, ft, _) => initializeGhe c ft v coordinates rho
+  | none => .error .valueError
+
 /-! ### Line protocol -/
 
 def field (n : Nat) : List (Rat × Rat) := List.replicate n (0, 0)
@@ -103,7 +157,8 @@ def showPy {α} (f : α → String) : Py α → String
 /-- Commands:
     `flow.rf <1d|rw> <B|S|X> <v> <n> <rho>`   → `v_flow_system m_flow_borehole`
     `flow.bghe <v_flow_system> <n> <rho>`     → `V_flow_borehole m_flow_borehole bhe_m_flow`
-    `flow.init <1d|rw> <B|S|X> <v> <n> <rho>` → `V_flow_system m_g V_flow_borehole m_ghe m_bhe nbh` -/
+    `flow.init <1d|rw> <B|S|X> <v> <n> <rho>` → `V_flow_system m_g V_flow_borehole m_ghe m_bhe nbh`
+    `flow.hist <item;item;…>`  (item = `g<k>` | `<v>,<B|S|X>,<T|F>`) → `<result,…> <V_flow ft k | none>` -/
 def cmd : List String → Option String
   | ["flow.rf", c, ft, v, n, rho] => some <|
       match parseCopy c, parseFT ft, parseRat? v, n.toNat?, parseRat? rho with
@@ -122,6 +177,29 @@ def cmd : List String → Option String
             s!"{showRat g.vFlowSystem} {showRat g.mFlowG} {showRat g.vFlowBorehole} {showRat g.mFlowGhe} {showRat g.mFlowBhe} {g.nbh}")
             (initializeGhe c ft v (field n) rho)
       | _, _, _, _, _ => "bad-arg"
+  | ["flow.hist", items] => some <| Id.run do
+      -- items: `;`-separated, each `g<k>` (set geometry of method k) or `<v>,<B|S|X>,<T|F>` (set_design)
+      let mut m : Manager := { geom := none, design := none }
+      let mut outs : List String := []
+      for it in items.splitOn ";" do
+        if it.startsWith "g" then
+          match (it.drop 1).toNat? with
+          | some k => m := setGeometry m k; outs := outs ++ ["g"]
+          | none => return "bad-arg"
+        else
+          match it.splitOn "," with
+          | [v, ft, t] =>
+            match parseRat? v, parseFT ft with
+            | some v, some ft =>
+              let r := setDesign m v ft (t == "T")
+              m := r.1
+              outs := outs ++ [match r.2 with | .ret c => toString c | .raised e => e.name]
+            | _, _ => return "bad-arg"
+          | _ => return "bad-arg"
+      let d := match m.design with
+        | some (v, ft, k) => s!"{showRat v} {match ft with | .borehole => "B" | .system => "S" | .other => "X"} {k}"
+        | none => "none"
+      return String.intercalate "," outs ++ " " ++ d
   | _ => none
 
 end GHEVerif.Flow
